@@ -96,6 +96,13 @@ def catalogue(name):
             vals.append(c + c)
             vals.append(c.upper())
 
+            for suffix in (';', '; a=b', '; charset=utf-8', ' ', '\n', '/',
+                           ',', '+x', '\x00', '.0'):
+                vals.append(c + suffix)
+
+            for prefix in (' ', 'x-', '\n'):
+                vals.append(prefix + c)
+
     return vals
 
 
@@ -388,6 +395,16 @@ PERTURB_VALUES = {
 }
 
 
+def _reversed_keys(v):
+    if isinstance(v, dict):
+        return {k: _reversed_keys(v[k]) for k in reversed(list(v))}
+
+    if isinstance(v, list):
+        return [_reversed_keys(x) for x in v]
+
+    return v
+
+
 @hs.composite
 def pairs(draw):
     t = draw(trees.trees(max_changes=3, max_files=3))
@@ -397,6 +414,7 @@ def pairs(draw):
 
     for _ in range(n):
         kind = draw(hs.sampled_from(['set', 'set', 'set', 'unset', 'deep',
+                                     'reorder-keys', 'reorder-keys',
                                      'add-change', 'del-change',
                                      'swap-changes', 'add-file', 'del-file',
                                      'swap-files']))
@@ -422,6 +440,9 @@ def pairs(draw):
             attrs['meta'] = dict(attrs['meta'])
             attrs['meta'][draw(hs.sampled_from(['k', 'path', 'new']))] = \
                 draw(hs.sampled_from([None, 0, 'v', [1], {'n': {}}]))
+        elif kind == 'reorder-keys' and isinstance(attrs.get('meta'), dict):
+            # the same metadata filled in another order (also inside lists)
+            attrs['meta'] = _reversed_keys(attrs['meta'])
         elif kind == 'add-change':
             changes.insert(draw(hs.integers(0, len(changes))),
                            {'attrs': {}, 'files': []})
